@@ -92,6 +92,10 @@ func (tbls *TBLS) Sign(_ context.Context, msgHash []byte) ([]byte, error) {
 }
 
 func (tbls *TBLS) ClassifyMsg(msgBytes []byte) (uint8, bool, error) {
+	if len(msgBytes) == 0 {
+		return 0, false, fmt.Errorf("empty message")
+	}
+
 	switch msgBytes[0] {
 	case shareDistribution:
 		return shareDistribution, false, nil
@@ -124,6 +128,11 @@ func (tbls *TBLS) Init(parties []uint16, threshold int, sendMsg func(msg []byte,
 }
 
 func (tbls *TBLS) OnMsg(msgBytes []byte, from uint16, _ bool) {
+	if len(msgBytes) == 0 {
+		tbls.Logger.Warnf("Got an empty message from %d", from)
+		return
+	}
+
 	tbls.lock.Lock()
 	defer tbls.lock.Unlock()
 
